@@ -75,6 +75,15 @@ class Module:
                     if isinstance(t, ast.Name):
                         self.assigns[t.id] = st.value
                         self.assign_nodes[t.id] = st
+                    elif isinstance(t, (ast.Tuple, ast.List)) and all(isinstance(e, ast.Name) for e in t.elts):
+                        # `a, b, c = 1, 2, 3` (or `= some_tuple`): each name is the matching component
+                        for i, e in enumerate(t.elts):
+                            if isinstance(st.value, (ast.Tuple, ast.List)) and len(st.value.elts) == len(t.elts) and not any(isinstance(x, ast.Starred) for x in st.value.elts):
+                                comp = st.value.elts[i]
+                            else:
+                                comp = ast.fix_missing_locations(ast.copy_location(ast.Subscript(value=st.value, slice=ast.Constant(i), ctx=ast.Load()), st.value))
+                            self.assigns[e.id] = comp
+                            self.assign_nodes[e.id] = st
             elif prefix == '' and isinstance(st, ast.AnnAssign):
                 if isinstance(st.target, ast.Name) and st.value is not None:
                     self.assigns[st.target.id] = st.value
